@@ -30,6 +30,7 @@ pub enum Str {
     Ascii(u16),
     NonAscii(u8),
     InvalidUtf8(u8),
+    Long(u16),
 }
 
 #[derive(Clone, Debug, Serialize, Deserialize)]
@@ -47,6 +48,7 @@ fn strc() -> impl Strategy<Value = Str> {
         4 => (1u16..300).prop_map(Str::Ascii),
         2 => (1u8..40).prop_map(Str::NonAscii),
         1 => (1u8..40).prop_map(Str::InvalidUtf8),
+        1 => (300u16..12000).prop_map(Str::Long),
     ]
 }
 
@@ -54,6 +56,7 @@ fn resolve(s: &Str, salt: u64) -> Vec<u8> {
     match s {
         Str::Empty => vec![],
         Str::Ascii(n) => seeded_bytes(salt, *n as usize).into_iter().map(|b| 0x20 + b % 95).collect(),
+        Str::Long(n) => seeded_bytes(salt, *n as usize).into_iter().map(|b| 0x20 + b % 95).collect(),
         Str::NonAscii(n) => {
             let pool = ["é", "ß", "漢", "字", "🚀", "Ω", "a"];
             seeded_bytes(salt, *n as usize).into_iter().map(|b| pool[b as usize % pool.len()]).collect::<String>().into_bytes()
@@ -84,7 +87,7 @@ impl Property for C13 {
         "C13"
     }
     fn rule(&self) -> &'static str {
-        "proptest single cases: sender (account with exact authorisation / none / authorisation for another payload / another account's authorisation; probe contract calling as itself / naming an account), destination chain and address strings (empty, ASCII up to 300 bytes, multi-byte UTF-8, invalid UTF-8), payload lengths around the Keccak rate (0,1,31,32,33,135,136,137,271..273,...) up to 64 KiB with case-seeded content. Oracle: success iff the sender authorised (or is the calling contract); then exactly one event by the gateway with topics (contract_called, sender, chain, address, own Keccak-256(payload)) and data = payload, and the gateway's own ledger entries unchanged; otherwise failure, no event, full snapshot equality. non-trivial = every case (the suite has one sample); distinct by Debug hash of the whole case"
+        "proptest single cases: sender (account with exact authorisation / none / authorisation for another payload / another account's authorisation; probe contract calling as itself / naming an account), destination chain and address strings (empty, ASCII up to 300 bytes, multi-byte UTF-8, invalid UTF-8, up to 12 KB long), payload lengths around the Keccak rate (0,1,31,32,33,135,136,137,271..273,...) up to 64 KiB with case-seeded content. Oracle: success iff the sender authorised (or is the calling contract); then exactly one event by the gateway with topics (contract_called, sender, chain, address, own Keccak-256(payload)) and data = payload, and the gateway's own ledger entries unchanged; otherwise failure, no event, full snapshot equality. non-trivial = every case (the suite has one sample); distinct by Debug hash of the whole case"
     }
     fn cases(&self, tier: Tier) -> u64 {
         tier.pick(20000, 200000)
